@@ -612,6 +612,58 @@ def relation_words(run, rep, M, names, what, tolscale, case, rng, exact=False):
                     d > 1e-6, "exact-order/word-api/%s/finite-label" % what,
                     "%s of %r: (%s*%s)^%d is the identity although the label is %d"
                     % (what, M, names[i], names[j], kk, m), case)
+    relation_batch(run, rep, M, names, what, tolscale, case, rng)
+
+
+def relation_batch(run, rep, M, names, what, tolscale, case, rng):
+    """relators, generators and two-letter words of mixed lengths in ONE
+    elements() call, in random order: entry k must be the image of word k (a
+    relator position holds the identity, a generator position an involution that
+    is not the identity, and every entry equals the same word evaluated on its
+    own).  Seeded change C08-r4-2: elements() evaluating in length order and
+    un-permuting with the wrong permutation."""
+    if not all(len(x) == 1 for x in names):
+        return
+    mon = run.monitor("relation-words")
+    n = len(M)
+    cls = input_class(M)
+    words = [(i,) for i in range(n)]
+    for i in range(n):
+        for j in range(n):
+            if i != j and M[i][j] != 0 and M[i][j] <= 12:
+                words.append((i, j) * M[i][j])
+                words.append((i, j))
+    words.append(())
+    order = rng.permutation(len(words))
+    words = [words[int(k)] for k in order][:14]
+    res = rep.elements([word_string(w, names) for w in words])
+    A = np.swapaxes(np.asarray(res.matrix), -1, -2) if hasattr(res, "matrix") else np.asarray(res)
+    if A.dtype == object or A.shape != (len(words), n, n):
+        mon.fail("relation-words/batch-shape/%s/%s" % (what, cls),
+                 "elements(%d words) returned dtype %s shape %r" % (len(words), A.dtype, A.shape), case)
+        return
+    A = A.astype(float)
+    eye = np.eye(n)
+    for k, w in enumerate(words):
+        c = dict(case, batch=[word_string(x, names) for x in words], index=k)
+        single, _ = eval_word(rep, w, names, "getitem")
+        sc = max(1.0, float(np.max(np.abs(single)))) ** 2
+        mon.judge(float(np.max(np.abs(A[k] - single))) / sc, TOL * tolscale * max(len(w), 1),
+                  "relation-words/batch-entry-is-not-its-word/%s/%s" % (what, cls),
+                  "%s: elements(words)[%d] differs from the image of word %d (%s) evaluated alone"
+                  % (what, k, k, word_string(w, names)), c)
+        i_j = len(w) >= 4 and len(set(w)) == 2 and M[w[0]][w[1]] * 2 == len(w)
+        if len(w) == 0 or i_j:
+            mon.judge(float(np.max(np.abs(A[k] - eye))) / sc, TOL * tolscale * max(len(w), 1),
+                      "relation-words/batch-relator/%s/%s" % (what, cls),
+                      "%s: the relator at position %d of one elements() call is not sent to the identity"
+                      % (what, k), c)
+        elif len(w) == 1:
+            mon.require(float(np.max(np.abs(A[k] - eye))) > 1e-6,
+                        "relation-words/batch-generator-is-identity/%s/%s" % (what, cls),
+                        "%s: the generator at position %d of one elements() call is sent to the identity"
+                        % (what, k), c)
+    run.note_class("relation-batch", what, cls, n)
 
 
 def random_word(rng, n, length):
